@@ -14,4 +14,13 @@ for p in sorted(glob.glob('/verif/evidence/*.json')):
         jsonschema.validate(json.load(open(p)), es); print(p, 'ok')
     except Exception as e:
         ok = False; print(p, 'INVALID', str(e)[:300])
+m = json.load(open('/verif/MANIFEST.json'))
+for c in m['checks']:
+    p = '/verif/' + c['evidence_file']
+    try:
+        e = json.load(open(p))
+        if e['level'] != c['level_claimed']['category'] or e['property_id'] != c['property_id']:
+            ok = False; print(p, 'LEVEL/ID MISMATCH', e['level'], c['level_claimed']['category'])
+    except Exception as ex:
+        ok = False; print(p, 'MISSING', ex)
 sys.exit(0 if ok else 1)
